@@ -244,7 +244,8 @@ pub fn mutate_random(buf: &mut [u8], dir: &[TableRec], rng: &mut Rng, patcher: &
                 patcher.set(buf, pos, &[b]);
             }
             "byte" => {
-                let b = *rng.pick(&[0u8, 1, 0x7f, 0x80, 0xff, rng.u32() as u8]);
+                let r = rng.u32() as u8;
+                let b = *rng.pick(&[0u8, 1, 0x7f, 0x80, 0xff, r]);
                 patcher.set(buf, pos, &[b]);
             }
             "interesting16" => {
@@ -269,6 +270,7 @@ pub fn mutate_random(buf: &mut [u8], dir: &[TableRec], rng: &mut Rng, patcher: &
                 let field = if kind == "dir-offset" { r.rec_pos + 8 } else { r.rec_pos + 12 };
                 let cur = be32(buf, field).unwrap_or(0);
                 let fl = file_len as u32;
+                let other = dir[rng.usize(dir.len())].offset;
                 let v = *rng.pick(&[
                     0,
                     1,
@@ -283,7 +285,7 @@ pub fn mutate_random(buf: &mut [u8], dir: &[TableRec], rng: &mut Rng, patcher: &
                     0xFFFFFFFF,
                     0x80000000,
                     0xFFFFFFFFu32.wrapping_sub(cur).wrapping_add(1),
-                    dir[rng.usize(dir.len())].offset,
+                    other,
                 ]);
                 patcher.set32(buf, field, v);
             }
